@@ -59,6 +59,10 @@ def safePath (p : PathS) : Bool := safeOpt p.publishPass && safeOpt p.readPass
 def safeConf (c : ConfS) : Bool :=
   c.users.all safePass && safePath c.defaults && c.paths.all fun e => safePath e.2
 
+/-- what `config/paths/list?itemsPerPage=ipp&page=p` serves of a (sorted) path list (paginate, C44) -/
+def pageOf (paths : List (String × PathS)) (ipp p : Nat) : List (String × PathS) :=
+  (paths.drop (p * ipp)).take ipp
+
 /-! type-tree side condition: every credential-typed field the API serialises whose name says "password"
 is one of the positions `redactCredentials` rewrites.  `fields` = (scope, json path, Go type) from a
 reflection walk; scope `g` = global/get, `p` = path objects (defaults, list, get). -/
